@@ -405,6 +405,14 @@ def handle (toks : List String) : Option String :=
     let o := httpReadChunks (fun off size => slice data off size) (← parseNat retry)
       (← parseScript script) (← parseChunks chunks)
     some (showOut o)
+  -- http-x <surplus> <retry> <datalen> <chunks> <script> : a server that appends <surplus> bytes of 0xEE
+  -- to every answer
+  | ["http-x", extra, retry, dlen, chunks, script] => do
+    let data := pattern (← parseNat dlen)
+    let n ← parseNat extra
+    let o := httpReadChunks (fun off size => slice data off size ++ List.replicate n 0xEE) (← parseNat retry)
+      (← parseScript script) (← parseChunks chunks)
+    some (showOut o)
   -- http-spec ... : the run-level specification on the same input
   | ["http-spec", retry, dlen, chunks, script] => do
     let data := pattern (← parseNat dlen)
